@@ -177,4 +177,11 @@ example : DictLike [⟨some [120], [97], [49]⟩, ⟨none, [97], [51]⟩] := by
   intro a ha b hb; simp at ha hb
   rcases ha with rfl | rfl <;> rcases hb with rfl | rfl <;> simp
 
+/-- the excluded point of `C18_key_inj` / `C18_order_indep` is a real counter-example (recorded finding): with one attribute
+in no namespace and one in the EMPTY-STRING namespace under the same local name the keys coincide and the (stable) sort
+keeps the arrival order (observed on the real filter by the harness), so the result depends on the incoming order. -/
+theorem C18_key_collision_witness :
+    specKey { ns := none, name := [104], value := [49] } = specKey { ns := some [], name := [104], value := [50] } ∧
+    ({ ns := none, name := [104], value := [49] } : Attr) ≠ { ns := some [], name := [104], value := [50] } := by decide
+
 end H5.Props.C18
